@@ -10,6 +10,38 @@ TRUSTED_COMMON = [
 ]
 
 PROPS = {
+    "C16": dict(
+        suites=[160],
+        design_ref="DESIGN.md section 5, C16",
+        rule=("suite 160: documents -> LinkFormatWrite into a String -> LinkFormatParser / LinkAttributeParser / Unquote (to_string and to_cow); values exhaustively up to length 3 (thorough 4) over the 11-symbol alphabet {< > ; , quote backslash = space a two-byte-char newline} "
+              "through attr() and attr_quoted(), each in a two-link document with an integer attribute, newline option on and off; random documents of 0..4 links x 0..4 attributes with targets/keys/values over structural characters, 3- and 4-byte code points, Unicode white space, values to length 40, "
+              "attr_u32 / attr_u16 at boundaries; verdict: parsed targets, keys and unquoted values (both unquoting paths) equal the document given; class by document shape; non-trivial = document in the property's domain (target without '>', key free of separators); distinct = distinct input"),
+        level_text=("Theorem C16_roundtrip: for every document in the domain, of any size, with or without newlines, parse_content (what the writer sends to a fault-free sink) = the links, keys and original value texts, in order -- proved by induction over links and attributes from scanner lemmas "
+                    "(a quoted, escaped value is walked over by both scanners whatever it contains; separators only occur outside quotes; trimming removes exactly the separators; the unquoting iterator inverts the escaping). C16_attr_auto_wf: attr() always picks a form the theorem covers."),
+        level_note=("Hand-written models of the writer and the three parsing iterators tied to the Rust by differential execution (dev and release; dev also exercises the writer's debug_assert on keys). core::fmt's one-write_str-per-write behaviour is an assumption checked by the fault-free runs of suite 180."),
+        modelled="src/link_format.rs LinkFormatWrite, LinkAttributeWrite, LinkFormatParser, LinkAttributeParser, Unquote",
+    ),
+    "C17": dict(
+        suites=[170],
+        design_ref="DESIGN.md section 5, C17",
+        rule=("suite 170: arbitrary strings -> all three iterators driven to the end, every slice with its offset (pointer difference against the input; LinkAttributeParser's remaining string through the cfg(coap_lite_verif) hook), Unquote::to_string and Unquote::to_cow (panic captured) for every value; "
+              "all strings of length <= 5 (thorough 7) over the property's 10-symbol alphabet, 30000 (thorough 500000) random strings to length 24 over a wider alphabet incl. 4-byte code points and Unicode white space, every prefix of 300 (thorough 5000) well-formed documents; "
+              "verdict on the observed items alone: every slice is the input's content at its offset, slices are ordered and disjoint, an error is the last item, to_cow = to_string, no panic; class 1 without / 2 with a quote character; distinct = distinct input"),
+        level_text=("Theorems for every string: C17_link_progress / C17_attr_progress (each yielded item strictly shortens the remaining input: termination), C17_link_substrings / C17_attr_substrings (s = x ++ link ++ y ++ attrs ++ z ++ rest with exactly the reported offsets: substrings, left to right, disjoint), "
+                    "C17_error_is_last (after an error nothing is yielded), C17_cow_eq (to_cow v = Ok (to_string v) for every value, including unterminated quoted strings and text after the closing quote; in particular it never panics)."),
+        level_note=("Hand-written model tied to the Rust by differential execution with panic capture (dev and release). The scanners are total structural recursions in the model; byte-level slicing (char boundaries) exists only in the Rust and is covered by comparing every slice and offset on ~1.5*10^5 strings per build."),
+        modelled="src/link_format.rs LinkFormatParser::next, LinkAttributeParser::next, Unquote (Iterator, to_cow, is_quoted)",
+    ),
+    "C18": dict(
+        suites=[180],
+        design_ref="DESIGN.md section 5, C18",
+        rule=("suite 180: for each of 250 (thorough 3000) random documents x newline option on/off: EVERY write-call index k from 0 to the fault-free call count x {only call k fails, call k and all later fail}, enumerated completely per document, through a fault-injecting fmt::Write sink; "
+              "compared: final result, number of calls, the chunks the sink accepted (the fault-free run is itself compared with the model's chunk list: one write_str per write); class 1 fail-once / 2 fail-persistently / 3 fault-free; distinct = distinct input"),
+        level_text=("Theorem C18_fault: for every document, newline option and every fault schedule (an arbitrary function of the call index: once, persistently, intermittently), if call k is the first to fail the writer's result is an error, exactly k+1 calls were issued and the sink holds exactly the first k chunks of the fault-free output; "
+                    "if no call fails the result is success and the output complete (C18_no_fault). By induction over the document with the invariant 'error set => no further call'."),
+        level_note="Hand-written model of the writer's guarded writes tied to the Rust by complete per-document fault enumeration (dev and release).",
+        modelled="src/link_format.rs LinkFormatWrite::{link, finish}, LinkAttributeWrite::{attr, attr_quoted, attr_u32, attr_u16, finish}",
+    ),
     "C14": dict(
         suites=[140],
         design_ref="DESIGN.md section 5, C14",
@@ -164,9 +196,6 @@ NOT_APPLICABLE = {
     "C10": "check under construction in this development (model and theorems not yet committed)",
     "C11": "check under construction in this development (model and theorems not yet committed)",
     "C12": "check under construction in this development (model and theorems not yet committed)",
-    "C16": "check under construction in this development (model and theorems not yet committed)",
-    "C17": "check under construction in this development (model and theorems not yet committed)",
-    "C18": "check under construction in this development (model and theorems not yet committed)",
     "C20": "check under construction in this development (model and theorems not yet committed)",
 }
-HOOK_COMMITS = ['d25ab05b2d89767c2eabe189d6733ff858b6e32b']
+HOOK_COMMITS = ['d43d2bd524872a400aac9458e0598397ea43fdaa', 'd25ab05b2d89767c2eabe189d6733ff858b6e32b']
